@@ -35,7 +35,7 @@ def o7_1_key_range(mir, tier):
         ex = Exec(mir, base_summaries(mir), loop_bound=n + 2)
         seen = {'start_bad': False, 'end_bad': False}
         def k(ret, env, pc, F=F, n=n, ex=ex):
-            start, end = w.K(ret[1]), w.K(ret[2])
+            start, end = w.K(ret[0]), w.K(ret[1])
             post_s = And(*[kle(start, f['sm']) for f in F], Or(*[same_key(start, f['sm']) for f in F]))
             post_e = And(*[kle(f['lg'], end) for f in F], Or(*[same_key(end, f['lg']) for f in F]))
             for label, post in (('range.start is not the smallest key of the files', post_s), ('range.end is not the largest key of the files', post_e)):
@@ -90,3 +90,266 @@ def o7_1_witness_ok(w, out):
     if out.get('_rc') != 0: return False
     r = w['executor_result']
     return _native_key(out['start']) == (r[0], r[1]) and _native_key(out['end']) == (r[2], r[3])
+
+
+# ---------------------------------------------------------------- O1.3 find_file_with_upper_bound_range
+def sorted_disjoint(F):
+    """INV of a level >= 1: each file smallest <= largest, consecutive files strictly ordered (internal key order)."""
+    c = [kle(f['sm'], f['lg']) for f in F]
+    c += [klt(F[i]['lg'], F[i + 1]['sm']) for i in range(len(F) - 1)]
+    return c
+
+
+def _files_argv(m, F):
+    return ['%d:%d:%s:%d:%s:%d' % (mval(m, f['num']), mval(m, f['size']), key_bytes(mval(m, f['sm'][0])), mval(m, f['sm'][1]),
+                                     key_bytes(mval(m, f['lg'][0])), mval(m, f['lg'][1])) for f in F]
+
+
+def o1_3_find_file(mir, tier):
+    fn = mir.fn_by_suffix('utils::find_file_with_upper_bound_range')
+    N = 5 if tier == 'thorough' else 4
+    res = Result('O1.3 find_file_with_upper_bound_range', [fn.path, 'InternalKey::cmp (inlined)'], 'sorted disjoint levels of 0..%d files, free target key' % N)
+    t0 = time.time()
+    for n in range(0, N + 1):
+        w = World(mir)
+        files = [w.file('f%d' % i, number=i + 1) for i in range(n)]
+        F = [w.F(f) for f in files]
+        tk = w.key('t'); T = w.K(tk)
+        pre = list(w.pre) + sorted_disjoint(F)
+        ex = Exec(mir, base_summaries(mir), loop_bound=n + 3)
+        def k(ret, env, pc, F=F, n=n, ex=ex, T=T):
+            # reference: first index whose largest key is >= target
+            cases = []
+            for i in range(n):
+                cases.append((And(*[klt(F[j]['lg'], T) for j in range(i)], kle(T, F[i]['lg'])), i))
+            none_c = And(*[klt(f['lg'], T) for f in F]) if F else BoolVal(True)
+            if isinstance(ret, Enum) and ret.tag == 'None': post = none_c
+            elif isinstance(ret, Enum) and ret.tag == 'Some': post = Or(*[And(c, ret.fields[0] == bv(i)) for c, i in cases]) if cases else BoolVal(False)
+            else: raise Inconclusive('unexpected return %r' % (ret,))
+            label = 'result is not the first file whose largest key is >= target'
+            ex.record_formula('%s n=%d' % (label, n), pc, Not(post))
+            m = ex.model(Not(post))
+            got = (lambda mm: None if ret.tag == 'None' else mval(mm, ret.fields[0]))
+            if m is not None:
+                res.violations.append({'label': label, 'n': n, 'executor_result': got(m),
+                                       'replay': ['find_file', '%s:%d' % (key_bytes(mval(m, T[0])), mval(m, T[1]))] + _files_argv(m, F)})
+            elif len(res.witnesses) < 4 and n >= 2:
+                m = ex.model()
+                res.witnesses.append({'executor_result': got(m), 'replay': ['find_file', '%s:%d' % (key_bytes(mval(m, T[0])), mval(m, T[1]))] + _files_argv(m, F)})
+        env = {'$state': {}, '$files': files, '$t': tk}
+        ex.top(fn, [Ref('$files'), Ref('$t')], env, pre, k)
+        res.absorb(ex)
+        for pc, msg, where in ex.panics:
+            res.panic_paths += 1
+            res.violations.append({'label': 'panic path: ' + msg[:80], 'n': n, 'replay': None})
+    res.wall_s = time.time() - t0
+    if res.violations: res.status = 'violation'
+    return res
+
+
+def _ref_find_file(argv):
+    t = argv[0].split(':'); T = (int(t[0], 16), int(t[1]))
+    for i, f in enumerate(argv[1:]):
+        p = f.split(':'); lg = (int(p[4], 16), int(p[5]))
+        if not (_kcmp_key(lg) < _kcmp_key(T)): return i
+    return None
+
+
+def o1_3_confirm(v, out):
+    if out.get('_rc') != 0: return (False, 'native run failed: %s' % out.get('_stderr', '')[-200:])
+    exp = _ref_find_file(v['replay'][1:])
+    got = None if out['index'] == 'none' else int(out['index'])
+    return (got != exp, 'native index %s, reference %s' % (got, exp))
+
+
+def o1_3_witness_ok(w, out):
+    if out.get('_rc') != 0: return False
+    got = None if out['index'] == 'none' else int(out['index'])
+    return got == w['executor_result']
+
+
+# ---------------------------------------------------------------- O10.3 FileMetadataBySmallestKey::compare is a total order
+def o10_3_comparator(mir, tier):
+    fn = mir.method('FileMetadataBySmallestKey', 'compare', 'Comparator')
+    res = Result('O10.3 FileMetadataBySmallestKey::compare', [fn.path], 'three free files (free keys, sequences, numbers)')
+    t0 = time.time()
+    w = World(mir)
+    files = [w.file('f%d' % i) for i in range(3)]
+    F = [w.F(f) for f in files]
+    ex = Exec(mir, base_summaries(mir), loop_bound=4)
+    out = {}
+    pairs = [(0, 1), (1, 0), (1, 2), (0, 2), (0, 0)]
+    def run_pairs(idx, env, pc):
+        if idx == len(pairs):
+            L, E, G = (lambda o: o == BitVecVal(0xff, 8)), (lambda o: o == BitVecVal(0, 8)), (lambda o: o == BitVecVal(1, 8))
+            o01, o10, o12, o02, o00 = [out[p] for p in pairs]
+            def ref(a, b):
+                lt = Or(klt(F[a]['sm'], F[b]['sm']), And(keq(F[a]['sm'], F[b]['sm']), ULT(F[a]['num'], F[b]['num'])))
+                eq = And(keq(F[a]['sm'], F[b]['sm']), F[a]['num'] == F[b]['num'])
+                return lt, eq
+            checks = [('compare(a,a) is not Equal', E(o00)),
+                      ('compare is not antisymmetric', And(L(o01) == G(o10), E(o01) == E(o10))),
+                      ('compare is not transitive', Or(Not(And(L(o01), L(o12))), L(o02))),
+                      ('compare does not order by smallest key then file number', And(L(o01) == ref(0, 1)[0], E(o01) == ref(0, 1)[1]))]
+            for label, post in checks:
+                ex.record_formula(label, pc, Not(post))
+                m = ex.model(Not(post))
+                if m is not None:
+                    res.violations.append({'label': label, 'replay': ['fm_compare'] + _files_argv(m, F)})
+            if len(res.witnesses) < 2:
+                m = ex.model()
+                res.witnesses.append({'executor_result': [mval(m, out[p]) for p in [(0, 1), (1, 2), (0, 2)]], 'replay': ['fm_compare'] + _files_argv(m, F)})
+            return
+        a, b = pairs[idx]
+        def k(ret, env2, pc2):
+            out[pairs[idx]] = ret if not isinstance(ret, Enum) else ex.discr_of(ret)
+            run_pairs(idx + 1, env2, pc2)
+        ex.run_fn(fn, [Ref('$f%d' % a), Ref('$f%d' % b)], env, pc, k)
+    env = {'$state': {}, '$f0': files[0], '$f1': files[1], '$f2': files[2]}
+    ex.solver.push(); ex.solver.add(*w.pre)
+    run_pairs(0, env, list(w.pre))
+    ex.solver.pop()
+    ex.paths = max(ex.paths, 1)
+    res.absorb(ex)
+    res.wall_s = time.time() - t0
+    if res.violations: res.status = 'violation'
+    return res
+
+
+def _ord(a, b): return -1 if a < b else (0 if a == b else 1)
+
+
+def o10_3_confirm(v, out):
+    if out.get('_rc') != 0: return (False, 'native run failed')
+    fs = []
+    for f in v['replay'][1:]:
+        p = f.split(':'); fs.append(((int(p[2], 16), -int(p[3])), int(p[0])))
+    exp = [_ord(fs[a], fs[b]) for a, b in ((0, 1), (1, 2), (0, 2))]
+    got = [int(x) for x in out['cmp'].split(',')]
+    return (got != exp, 'native %s reference %s' % (got, exp))
+
+
+def o10_3_witness_ok(w, out):
+    if out.get('_rc') != 0: return False
+    got = [int(x) & 0xff for x in out['cmp'].split(',')]
+    return got == [x & 0xff for x in w['executor_result']]
+
+
+# ---------------------------------------------------------------- O7.2 Version::get_overlapping_compaction_inputs
+def mk_version(mir, levels):
+    """levels: {level: [file structs]} -> Version struct value (only `files` is modelled)."""
+    files = [list(levels.get(l, [])) for l in range(7)]
+    return mir.mk_struct('Version', files=files, db_options={'abstract': True, '__ty': 'DbOptions'}, table_cache='table_cache')
+
+
+def o7_2_overlapping_inputs(mir, tier):
+    fn = mir.method('Version', 'get_overlapping_compaction_inputs')
+    N = 4 if tier == 'thorough' else 3
+    res = Result('O7.2 Version::get_overlapping_compaction_inputs', [fn.path], 'levels 0 and 1, 0..%d files per level, every combination of open/closed range ends' % N)
+    t0 = time.time()
+    fidx = mir.field('Version', 'files')
+    for level in (0, 1):
+        for n in range(0, N + 1):
+            for has_b, has_e in itertools.product((False, True), repeat=2):
+                w = World(mir)
+                files = [w.file('f%d' % i, number=i + 1) for i in range(n)]
+                F = [w.F(f) for f in files]
+                bk, ek = w.key('b'), w.key('e'); B, E = w.K(bk), w.K(ek)
+                pre = list(w.pre) + [kle(f['sm'], f['lg']) for f in F]
+                if level > 0: pre += sorted_disjoint(F)
+                if has_b and has_e: pre.append(ULE(B[0], E[0]))
+                ex = Exec(mir, base_summaries(mir), loop_bound=(n + 1) * (n + 1) + 3 if level == 0 else n + 3)
+                def k(ret, env, pc, F=F, n=n, ex=ex, B=B, E=E, has_b=has_b, has_e=has_e, level=level):
+                    got = []
+                    for r in ret:
+                        if not (isinstance(r, Ref) and r.local == '$v' and r.path[:2] == (fidx, level)): raise Inconclusive('unexpected result element %r' % (r,))
+                        got.append(r.path[2])
+                    inres = [i in got for i in range(n)]
+                    # expanded range: the query range widened by the user ranges of the returned files (bounded ends only)
+                    def before(i, lo): return ULT(F[i]['lg'][0], lo)
+                    def after(i, hi): return ULT(hi, F[i]['sm'][0])
+                    posts = []
+                    if level > 0:
+                        for i in range(n):
+                            ov = And(Not(before(i, B[0])) if has_b else BoolVal(True), Not(after(i, E[0])) if has_e else BoolVal(True))
+                            posts.append(('level>=1: result is not exactly the files overlapping the range', ov == BoolVal(inres[i])))
+                        posts.append(('result order differs from level order', BoolVal(got == sorted(got))))
+                    else:
+                        lo, hi = B[0], E[0]
+                        for i in got:
+                            lo = If(ULT(F[i]['sm'][0], lo), F[i]['sm'][0], lo); hi = If(UGT(F[i]['lg'][0], hi), F[i]['lg'][0], hi)
+                        for i in range(n):
+                            ov0 = And(Not(before(i, B[0])) if has_b else BoolVal(True), Not(after(i, E[0])) if has_e else BoolVal(True))
+                            ovx = And(Not(before(i, lo)) if has_b else BoolVal(True), Not(after(i, hi)) if has_e else BoolVal(True))
+                            if not inres[i]:
+                                posts.append(('level 0: a file overlapping the query range is missing', Not(ov0)))
+                                posts.append(('level 0: result not closed under user-range overlap', Not(ovx)))
+                            else:
+                                posts.append(('level 0: a file outside the expanded range is returned', ovx))
+                        posts.append(('result contains a file twice', BoolVal(len(set(got)) == len(got))))
+                    def argv(m):
+                        return ['overlapping_inputs', str(level), ('%s:%d' % (key_bytes(mval(m, B[0])), mval(m, B[1]))) if has_b else 'none',
+                                ('%s:%d' % (key_bytes(mval(m, E[0])), mval(m, E[1]))) if has_e else 'none'] + _files_argv(m, F)
+                    bad = False
+                    for label, post in posts:
+                        ex.record_formula(label, pc, Not(post))
+                        m = ex.model(Not(post))
+                        if m is not None:
+                            bad = True
+                            res.violations.append({'label': label, 'level': level, 'n': n, 'executor_result': [g + 1 for g in got], 'replay': argv(m)})
+                    if not bad and n >= 2 and len(res.witnesses) < 4 and has_b and has_e and len(got) >= 1:
+                        m = ex.model()
+                        res.witnesses.append({'executor_result': [g + 1 for g in got], 'replay': argv(m)})
+                ver = mk_version(mir, {level: files})
+                env = {'$state': {}, '$v': ver, '$b': bk, '$e': ek}
+                rng = {0: Enum('Some', (Ref('$b'),)) if has_b else Enum('None'), 1: Enum('Some', (Ref('$e'),)) if has_e else Enum('None'), '__ty': 'Range'}
+                ex.top(fn, [Ref('$v'), bv(level), rng], env, pre, k)
+                for bpc, where in ex.bound_hits:      # the bound is a termination argument: <= n expansions, each followed by <= n steps
+                    ex.solver.push(); ex.solver.add(*bpc); ok = ex.solver.check(); m = ex.solver.model() if str(ok) == 'sat' else None; ex.solver.pop()
+                    if m is not None:
+                        res.violations.append({'label': 'level-0 restart loop exceeds (n+1)^2 iterations (non-termination)', 'level': level, 'n': n, 'expect_hang': True,
+                                               'replay': ['overlapping_inputs', str(level), ('%s:%d' % (key_bytes(mval(m, B[0])), mval(m, B[1]))) if has_b else 'none',
+                                                          ('%s:%d' % (key_bytes(mval(m, E[0])), mval(m, E[1]))) if has_e else 'none'] + _files_argv(m, F)})
+                ex.bound_hits = []
+                res.absorb(ex)
+                for pc, msg, where in ex.panics:
+                    res.panic_paths += 1
+                    res.violations.append({'label': 'panic path: ' + msg[:80], 'level': level, 'n': n, 'replay': None})
+    res.wall_s = time.time() - t0
+    if res.violations: res.status = 'violation'
+    return res
+
+
+def _ref_overlapping(level, b, e, files):
+    """Reference: level>=1 plain filter; level 0: least fixpoint of range expansion (bounded ends only)."""
+    def ov(f, lo, hi): return not (lo is not None and f[3] < lo) and not (hi is not None and hi < f[2])
+    lo, hi = b, e
+    while True:
+        sel = [f for f in files if ov(f, lo, hi)]
+        if level > 0: return [f[0] for f in sel]
+        nlo = min([lo] + [f[2] for f in sel]) if lo is not None else None
+        nhi = max([hi] + [f[3] for f in sel]) if hi is not None else None
+        if (nlo, nhi) == (lo, hi): return [f[0] for f in sel]
+        lo, hi = nlo, nhi
+
+
+def _parse_ov(argv):
+    level = int(argv[1]); b = None if argv[2] == 'none' else int(argv[2].split(':')[0], 16); e = None if argv[3] == 'none' else int(argv[3].split(':')[0], 16)
+    files = []
+    for f in argv[4:]:
+        p = f.split(':'); files.append((int(p[0]), int(p[1]), int(p[2], 16), int(p[4], 16)))
+    return level, b, e, files
+
+
+def o7_2_confirm(v, out):
+    if v.get('expect_hang'): return (bool(out.get('_timeout')), 'native call did not return within the watchdog time' if out.get('_timeout') else 'native call returned')
+    if out.get('_rc') != 0: return (False, 'native run failed: %s' % out.get('_stderr', '')[-200:])
+    level, b, e, files = _parse_ov(v['replay'])
+    got = [int(x) for x in out['files'].split(',') if x]
+    exp = _ref_overlapping(level, b, e, files)
+    return (sorted(got) != sorted(exp) or (level > 0 and got != exp), 'native %s, reference (least fixpoint) %s' % (got, exp))
+
+
+def o7_2_witness_ok(w, out):
+    if out.get('_rc') != 0: return False
+    return [int(x) for x in out['files'].split(',') if x] == w['executor_result']
